@@ -215,7 +215,8 @@ fn blackbox(kind: &str, k: usize, out: &mut Out) {
         if hang != 0 {
             out.viol("bb-hang", &format!("{kind} {k}: no answer and no close within the deadline"));
         }
-        if extra != 0 {
+        // (bytes behind an interim response are the next response of the same exchange)
+        if extra != 0 && status / 100 != 1 {
             out.viol("bb-two-answers", &format!("{kind} {k}: {extra} bytes follow a complete response"));
         }
         // (the close that follows an early response is the documented outcome, not a missing answer)
